@@ -653,4 +653,4 @@ def r17_12(ctx):
 
 
 def rules():
-    return [("R17.12", r17_12, 1), ("R17.11", r17_11, 3), ("R17.10", r17_10, 3), ("R17.9", r17_9, 2), ("R17.8", r17_8, 6), ("R17.7", r17_7, 5), ("R17.1", r17_1, 6), ("R17.5", r17_5, 4), ("R17.2", r17_2, 13), ("R17.3", r17_3, 4), ("R17.4", r17_4, 6), ("R17.6", r17_6, 3)]
+    return [("R17.12", r17_12, 1), ("R17.11", r17_11, 2), ("R17.10", r17_10, 3), ("R17.9", r17_9, 2), ("R17.8", r17_8, 6), ("R17.7", r17_7, 5), ("R17.1", r17_1, 6), ("R17.5", r17_5, 4), ("R17.2", r17_2, 13), ("R17.3", r17_3, 4), ("R17.4", r17_4, 6), ("R17.6", r17_6, 3)]
